@@ -629,6 +629,17 @@ def resolve_type_params(
             if type_param not in type_params:
                 type_params.append(type_param)
 
+    # the arguments of typ[...] follow the class's own parameter list
+    # (Generic[T, S]), which may order the variables differently from their
+    # first appearance in the bases
+    own_params = getattr(typ, "__parameters__", ())
+    if (
+        len(own_params) == len(type_params)
+        and set(own_params) == set(type_params)
+        and not any(map(is_unpack, type_params))
+    ):
+        type_params = list(own_params)
+
     _check_generic(typ, type_params, type_args)
 
     type_args = _flatten_type_args(type_args, allow_ellipsis_if_many_args=True)
